@@ -4,6 +4,12 @@ namespace Uflow.Driver
 
 open Uflow.Codec
 
+/-- Flips bit `p % 8` of byte `p / 8`. -/
+def flipBit (bs : List Nat) (p : Nat) : List Nat :=
+  match bs[p / 8]? with
+  | some b => bs.set (p / 8) (b ^^^ 2 ^ (p % 8))
+  | none => bs
+
 /-- mode `codec`: enc <frame> | dec <hex> | crc <hex> | size <datagram> -/
 def codecOp (toks : List String) : String :=
   match toks with
@@ -17,6 +23,21 @@ def codecOp (toks : List String) : String :=
       | some f => fmtFrame f
       | none => "none"
     | none => "bad-op"
+  | "rt" :: ts =>
+    match pFrame ts with
+    | some (f, []) => match decode (encode f) with
+      | some g => fmtFrame g
+      | none => "none"
+    | _ => "bad-op"
+  | ["flip", h, ps] =>
+    match unhex h, (ps.splitOn ",").mapM String.toNat? with
+    | some bs, some pos =>
+      if pos.all (fun p => p / 8 < bs.length) then
+        match decode (pos.foldl flipBit bs) with
+        | some f => fmtFrame f
+        | none => "none"
+      else "bad-op"
+    | _, _ => "bad-op"
   | ["crc", h] =>
     match unhex h with
     | some bs => toString (Crc.compute bs)
